@@ -5,7 +5,7 @@ namespace DFV.C17
 open DFV
 
 section
-variable {α : Type} {xe : XA α} {f : XFld α} {c p q t : Bool} {uo : Nat → Option String}
+variable [FieldAttrs] {α : Type} {xe : XA α} {f : XFld α} {c p q t : Bool} {uo : Nat → Option String}
 
 /-- coordinate units as exported: every axis has the region's unit -/
 def uoExport (f : XFld α) : Nat → Option String := fun a => some (f.mesh.region.units.getD a "")
@@ -51,6 +51,7 @@ theorem likeExport_exported (hf : f.WF) (nm : String) (u : PyArg) :
   { geo := geo_exported hf nm u, dims := dims_exported hf nm u, data := rfl, vd := rfl, cell := rfl,
     pmin := rfl, pmax := rfl, nvdim := rfl, tol := rfl, dtype := rfl }
 
+omit [FieldAttrs] in
 theorem LikeExport.eraseGeom (h : LikeExport xe f false false false t uo) (c p q : Bool) :
     LikeExport (eraseGeom c p q xe) f c p q t uo :=
   { geo := h.geo, dims := h.dims, data := h.data, vd := h.vd,
@@ -59,6 +60,7 @@ theorem LikeExport.eraseGeom (h : LikeExport xe f false false false t uo) (c p q
     pmax := by show (if q then none else xe.attrs.pmax) = _; rw [h.pmax]; cases q <;> rfl,
     nvdim := h.nvdim, tol := h.tol, dtype := h.dtype }
 
+omit [FieldAttrs] in
 theorem LikeExport.eraseTol (h : LikeExport xe f c p q t uo) : LikeExport (eraseTol xe) f c p q true uo :=
   { geo := h.geo, dims := h.dims, data := h.data, vd := h.vd, cell := h.cell, pmin := h.pmin, pmax := h.pmax,
     nvdim := h.nvdim, tol := rfl, dtype := h.dtype }
@@ -67,9 +69,11 @@ theorem LikeExport.eraseTol (h : LikeExport xe f c p q t uo) : LikeExport (erase
 def dropUnits (sel : String → Bool) (ax : Axis) : Axis :=
   if sel ax.name then { ax with coord := ax.coord.map fun c => { c with units := none } } else ax
 
+omit [FieldAttrs] in
 theorem dropUnits_name (sel : String → Bool) (ax : Axis) : (dropUnits sel ax).name = ax.name := by
   unfold dropUnits; split <;> rfl
 
+omit [FieldAttrs] in
 theorem LikeExport.eraseUnits (h : LikeExport xe f c p q t uo) (sel : String → Bool) :
     LikeExport (eraseUnits sel xe) f c p q t
       (fun a => if sel (f.mesh.region.dims.getD a "") then none else uo a) :=
@@ -108,6 +112,7 @@ theorem unitsAfter_export (hf : f.WF) : unitsAfter f.mesh.ndim (uoExport f) = f.
   rw [← hf.mesh.1.2.2.2.1]
   exact tab_getD_self _ _
 
+omit [FieldAttrs] in
 /-- one coordinate without units is enough for the default unit on every axis -/
 theorem unitsAfter_erased (d : Nat) (uo : Nat → Option String) (a : Nat) (ha : a < d) (h : uo a = none) :
     unitsAfter d uo = List.replicate d "m" := by
